@@ -47,12 +47,23 @@ for _nm, _arg, _rel in (('apply_attenuation_lin', 'attenuation_lin', 'old(self._
 SI_ARGS = ['frequency', 'baud_rate', 'slot_width', 'pch', 'signal_ratio', 'ase_ratio', 'nli_ratio', 'roll_off',
            'chromatic_dispersion', 'pmd', 'pdl', 'latency', 'delta_pdb_per_channel', 'tx_osnr', 'tx_power', 'label']
 
+
+# which clauses of the shared spectrum constructor / merge contracts each property rests on
+_STRUCT = ['perm_range', 'nch', 'len', 'sorted', 'no_overlap', 'baud_fits_slot', 'df', 'raises', 'no-', 'unexpected', 'frame']
+_SHARES = ['field_pch', 'field_signal_ratio', 'field_ase_ratio', 'field_nli_ratio', 'field_frequency']
+PROP_FIELDS = {
+    'C02': _SHARES + _STRUCT,
+    'C03': ['field_frequency', 'field_baud_rate', 'field_slot_width', 'field_pch', 'field_roll_off'] + _STRUCT,
+    'C05': ['field_chromatic_dispersion', 'field_pmd', 'field_pdl', 'field_latency', 'field_pch', 'field_frequency'] + _STRUCT,
+    'C06': ['field_delta_pdb_per_channel', 'field_pch', 'field_frequency', 'field_baud_rate', 'field_slot_width', 'field_pmd', 'field_pdl'] + _STRUCT,
+}
+
 SPEC_SORTED = '''
 def srt(x, frequency):
     return x[argsort(frequency)]
 '''
 
-contract('gnpy.core.info.SpectralInformation.__init__', props=['C07', 'C01', 'C03', 'C02', 'C06'],
+contract('gnpy.core.info.SpectralInformation.__init__', props=['C07', 'C01', 'C03', 'C02', 'C06'], prop_clauses=PROP_FIELDS,
          params=dict({'self': obj('SpectralInformation')},
                      **{a: (vec('n', 'str') if a == 'label' else vec('n')) for a in SI_ARGS}),
          spec=SPEC_SORTED,
@@ -100,7 +111,7 @@ contract('gnpy.core.info.is_in_band', props=['C07', 'C04'],
          returns=vec_len('len(frequency)', 'bool'), pure=True)
 
 SI2 = SI('n2')
-contract('gnpy.core.info.SpectralInformation.__add__', props=['C07', 'C01', 'C02', 'C05', 'C06'],
+contract('gnpy.core.info.SpectralInformation.__add__', props=['C07', 'C01', 'C02', 'C05', 'C06'], prop_clauses=PROP_FIELDS,
          params={'self': SI(), 'other': SI('n2')},
          let={'pi': 'sort_perm(append(self._frequency, other._frequency))[0]',
               'tot': 'self._number_of_channels + other._number_of_channels'},
@@ -184,7 +195,7 @@ _ACC = {
     'opt_gsnr_db': 'spec_lin2db(self._signal_ratio[i] / (self._ase_ratio[i] + self._nli_ratio[i])) - spec_lin2db(12.5e9 / self._baud_rate[i])',
 }
 for _acc, _def in _ACC.items():
-    contract(f'gnpy.core.info.SpectralInformation.{_acc}', props=['C01', 'C02'], params={'self': SI()}, spec=SPEC_INV,
+    contract(f'gnpy.core.info.SpectralInformation.{_acc}', props=['C01'] + (['C02'] if 'snr' in _acc else []), params={'self': SI()}, spec=SPEC_INV,
              requires=[('inv', 'INV(self)'), ('noise_present', f'forall(lambda i: self._ase_ratio[i] > 0 and self._nli_ratio[i] > 0 and '
                                                                f'self._baud_rate[i] > 0, {_N})')],
              ensures=[('is_the_share_it_is_named_after', f'forall(lambda i: at(result, i) == {_def}, {_N})')],
